@@ -157,7 +157,7 @@ func main() {
 				if !r.Want(id) && !r.Replaying() {
 					return nil
 				}
-				return step(r, kind, n, byName[an], id)
+				return step(r, kind, n, byName[an], id, false)
 			},
 		}
 		if r.Replaying() {
@@ -169,7 +169,7 @@ func main() {
 					var last any
 					for _, an := range strings.Split(strings.TrimPrefix(r.ReplayID, pfx), " ; ") {
 						id := fmt.Sprintf("kind=%s history=%s", kind, strings.Join(append(append([]string(nil), node.Hist...), an), " ; "))
-						last = step(r, kind, node, byName[an], id)
+						last = step(r, kind, node, byName[an], id, false)
 						node = &mc.Node{State: last, Hist: append(node.Hist, an)}
 					}
 					return last.(*kstate).w.Inspect().Canon()
@@ -187,13 +187,58 @@ func main() {
 			r.Cap("BFS for " + kind + " stopped at the internal deadline")
 		}
 	}
+	// One-process lines: the BFS above rebuilds the key-manager and authority objects for every
+	// command (one process per command, as the CLI runs). Here every sequence of three commands is
+	// run from the empty world on ONE set of objects that stays alive, for the two authorities that
+	// keep state of their own; the same invariants are judged after every command.
+	var lines [][]string
+	for _, a := range names {
+		for _, b := range names {
+			for _, c := range names {
+				lines = append(lines, []string{a, b, c})
+			}
+		}
+	}
+	runLine := func(kind string, seq []string) {
+		label := kind + "(one-process)"
+		w := kmfx.NewWorld(kind)
+		w.OneProcess = true
+		node := &mc.Node{State: &kstate{w: w, names: map[string]string{}, minted: map[string]int{}, mintedAt: map[string]time.Time{}}}
+		for _, an := range seq {
+			id := fmt.Sprintf("kind=%s history=%s", label, strings.Join(append(append([]string(nil), node.Hist...), an), " ; "))
+			next := step(r, label, node, byName[an], id, true)
+			if next == nil {
+				break // pruned (a state reported under a known finding is not explored further)
+			}
+			node = &mc.Node{State: next, Hist: append(node.Hist, an)}
+		}
+		w.Drop()
+	}
+	for _, kind := range []string{kmfx.MemGcs, kmfx.LocalLocal} {
+		kind := kind
+		pfx := fmt.Sprintf("kind=%s(one-process) history=", kind)
+		if r.Replaying() {
+			if strings.HasPrefix(r.ReplayID, pfx) {
+				r.Case(r.ReplayID, func() string {
+					runLine(kind, strings.Split(strings.TrimPrefix(r.ReplayID, pfx), " ; "))
+					return "line re-executed"
+				})
+			}
+			continue
+		}
+		r.ParallelFor(len(lines), func(i int) { runLine(kind, lines[i]) })
+		r.Add("one_process_lines_"+kind, int64(len(lines)))
+	}
 	r.Finish()
 }
 
 // step clones the state, runs one command through the real CLI and evaluates the invariants.
-func step(r *mc.Run, kind string, n *mc.Node, a action, id string) any {
+func step(r *mc.Run, kind string, n *mc.Node, a action, id string, inPlace bool) any {
 	prev := n.State.(*kstate)
-	k := prev.clone()
+	k := prev
+	if !inPlace {
+		k = prev.clone()
+	}
 	before := prev.w.Inspect()
 	err := k.w.CLI(a.args...)
 	after := k.w.Inspect()
